@@ -5,9 +5,11 @@ open EdbVerif EdbVerif.Desc EdbVerif.Driver
 /-!
 Line protocol (one request per line, fields separated by one blank):
 
-* `E <1|2> <tree>`  → `ok <hex bytes> <rt 0|1> <nblocks>` | `overflow`
-  (`rt` = model `decode (encode d) == d`),
-* `D <1|2> <hex>`   → `ok <tree>` | `err`       (model `decode` of arbitrary bytes),
+* `E <1|2> <tree> [N | <id>:x<text>,…]` → `ok <hex bytes> <rtReal> <nblocks> <rtDoc>` | `overflow`
+  (third field = display names when `inline_typenames` is set (`-` = set, no names), `N`/absent = not
+  set; `rtReal` = `decodeReal (encode d) == d`, `rtDoc` = `decodeDoc (encodeA dn d) == (d, annotations)`),
+* `D <1|2> <hex>`   → `ok <tree>` | `err`       (model of the REAL `parse` on arbitrary bytes),
+* `DD <1|2> <hex>`  → `ok <tree> <id:xtext,…|->` | `err`   (documented-format decoder),
 * `W <1|2> <tree>`  → `wf <nodesOK 0|1> <idFaithful 0|1> <fits 0|1>`,
 * `K c <ct> <subs> <names|N>` | `K s <base> <subs> <names|N> <cards|N> <lp|N> <links|N> <impl 0|1>`
   | `K t <sub>`      → `ok <hex preimage>` | `none`,
@@ -155,24 +157,49 @@ def parseBoolS : String → Option Bool
 
 def b01 (b : Bool) : String := if b then "1" else "0"
 
+def parseAnnE (s : String) : Option (Id × Bytes) :=
+  match s.splitOn ":" with
+  | [i, t] =>
+    match parseHex i, parseName t with
+    | some i, some t => some (i, t)
+    | _, _ => none
+  | _ => none
+
+def showAnn (l : List (Id × Bytes)) : String :=
+  if l.isEmpty then "-" else ",".intercalate (l.map fun e => showHex e.1 ++ ":x" ++ showHex e.2)
+
+/-- `E`: encode (with the display names `a` when `inline_typenames`), round-trip flags -/
+def doE (p t a : String) : String :=
+  match parseProto p, parseTree t, (if a == "N" then some none else (parseList parseAnnE a).map some) with
+  | some p, some d, some names =>
+    let dn : Option (Id → Bytes) := names.map fun l i => ((l.find? (·.1 == i)).map (·.2)).getD []
+    if !(nodesOK p d && fitsB p d) then "overflow" else
+    let bs := encodeA p dn d
+    let rtReal := match decodeReal p (encode p d) with
+      | some d' => Desc.beq d d'
+      | none => false
+    let rtDoc := match decodeDoc p bs with
+      | some (d', an) => Desc.beq d d' && an == (enc p dn {} d).ann
+      | none => false
+    s!"ok {showHex bs} {b01 rtReal} {(enc p none {} d).tbl.length} {b01 rtDoc}"
+  | _, _, _ => "bad-op"
+
 def handle (line : String) : String :=
   match line.splitOn " " with
-  | ["E", p, t] =>
-    match parseProto p, parseTree t with
-    | some p, some d =>
-      match encodeChecked p d with
-      | none => "overflow"
-      | some bs =>
-        let rt := match decode p bs with
-          | some d' => Desc.beq d d'
-          | none => false
-        s!"ok {showHex bs} {b01 rt} {(enc p {} d).tbl.length}"
-    | _, _ => "bad-op"
+  | ["E", p, t] => doE p t "N"
+  | ["E", p, t, a] => doE p t a
   | ["D", p, h] =>
     match parseProto p, parseHex h with
     | some p, some bs =>
-      match decode p bs with
+      match decodeReal p bs with
       | some d => "ok " ++ showTree d
+      | none => "err"
+    | _, _ => "bad-op"
+  | ["DD", p, h] =>
+    match parseProto p, parseHex h with
+    | some p, some bs =>
+      match decodeDoc p bs with
+      | some (d, an) => "ok " ++ showTree d ++ " " ++ showAnn an
       | none => "err"
     | _, _ => "bad-op"
   | ["W", p, t] =>
@@ -214,7 +241,7 @@ def handle (line : String) : String :=
     match parseProto p, ts.mapM parseTree with
     | some p, some ds =>
       if ds.all (nodesOK p) then
-        let s := encL p {} ds
+        let s := encL p none {} ds
         if s.tbl.length ≤ 65536 then s!"ok {showHex s.buf} {s.tbl.length}" else "overflow"
       else "overflow"
     | _, _ => "bad-op"
